@@ -47,12 +47,15 @@ THEOREMS = [
       fst (run R p s) = EIo e \\/ (e = EUnexpectedEof /\\ fst (run R p s) = EParse TruncatedChunk)"""),
 ]
 _WREQ = ["From Coq Require Import List NArith Bool.", "From Coq.Strings Require Import Byte.",
-         "From MS Require Import Base.Bytes Base.Outcome Base.Prog Base.ProgSpec Webp.Container Webp.ContainerProofsTotal Props.C13w.", "Open Scope N_scope."]
+         "From MS Require Import Base.Bytes Base.Outcome Base.Prog Base.ProgSpec Webp.Container Webp.Vp8l Webp.ContainerProofsTotal Props.C13w.", "Open Scope N_scope."]
 THEOREMS.append(("C13_no_spurious_io_webp", """forall (lossless : N -> N -> bytes -> res unit) (allow lenient : bool) (ms : N) (inp : input) (fuel : nat),
-  (forall w h b, rgood (lossless w h b)) -> (forall w h b e, lossless w h b <> EIo e) ->
+  (forall w h b, ldims w h -> rgood (lossless w h b)) -> (forall w h b e, ldims w h -> lossless w h b <> EIo e) ->
   (lenient = true -> ilen inp + 2 ^ 32 <= ms) ->
   forall e, webp_sanitize lossless allow lenient ms inp fuel <> EIo e"""))
-REQUIRES_FOR = {"C13_fault_propagates_webp": _WREQ, "C13_reader_error_propagates_webp": _WREQ, "C13_no_spurious_io_webp": _WREQ}
+THEOREMS.append(("C13_no_spurious_io_webpsan", """forall (allow lenient : bool) (ms : N) (inp : input) (fuel : nat) (e : ioerr),
+  (lenient = true -> ilen inp + 2 ^ 32 <= ms) ->
+  webp_sanitize lossless_read allow lenient ms inp fuel <> EIo e"""))
+REQUIRES_FOR = {"C13_fault_propagates_webp": _WREQ, "C13_reader_error_propagates_webp": _WREQ, "C13_no_spurious_io_webp": _WREQ, "C13_no_spurious_io_webpsan": _WREQ}
 TRUSTED = [
     "Coq 8.16.1 kernel (coqc; coqchk in the thorough tier); vm_compute only in Examples; no native_compute",
     "axioms: none (Print Assumptions = Closed under the global context for every theorem)",
